@@ -108,7 +108,10 @@ func (k Keeper) PlaceBid(ctx context.Context, msg *types.MsgPlaceBid) (types.Bid
 	bid := types.Bid{
 		AuctionId: msg.AuctionId,
 		Id:        bidID,
-		Bidder:    msg.Bidder,
+		// Store the canonical spelling of the address: bech32 also accepts an
+		// all-upper-case spelling, and bidders are compared as strings later on
+		// (allow-list lookup while matching, cumulative cap, settlement maps).
+		Bidder:    bidder.String(),
 		Type:      msg.BidType,
 		Price:     msg.Price,
 		Coin:      msg.Coin,
